@@ -92,6 +92,14 @@ Theorem C08_track_int_time_refuted :
 Proof. exact (ex_intro _ big_time_track track_int_time_witness). Qed.
 Print Assumptions C08_track_int_time_refuted.
 
+(* the premise radius > -1 of valid_etc is needed: a droplet with NaN radius that sits in a time course
+   (append(copy=False)) is written and then dropped on reading *)
+Theorem C08_etc_nan_radius_refuted :
+  exists x, forallb (fun te => forallb valid_drop (snd te)) x = true /\
+  exists f x', enc_etc repo_fmt x = Ok f /\ dec_etc repo_fmt f = Ok x' /\ x' <> x.
+Proof. exact (ex_intro _ nan_radius_etc etc_nan_radius_witness). Qed.
+Print Assumptions C08_etc_nan_radius_refuted.
+
 (* non-vacuity: a time course with two classes in different frames, an empty frame, an unset width,
    int and float times satisfies the hypotheses, is written, and reads back equal *)
 Example C08_nonvacuous :
